@@ -33,7 +33,8 @@ theorem addOpt_writeTsig_multiple (s : RState) (hk : KeysLong s.tbl) (hlen : 12 
   have h1' : stepToExcept (s.addOpt o pad a b) = .ok s1 := by rw [h1]; rfl
   obtain ⟨hmod, hle⟩ := addOpt_pad_length s hk o pad a b hpad s1 ha h1'
   have hwp : s1.wasPadded = true := by
-    unfold RState.addOpt at h1
+    replace h1 := addOpt_core_of_ok' h1
+    unfold RState.addOptCore at h1
     simp only [hpad, ne_eq, not_false_eq_true, if_true] at h1
     exact (addRRset_wasPadded h1).1
   have hwp' : s1.writeHeader.wasPadded = true := hwp
